@@ -232,3 +232,291 @@ Section SeqRead.
         * cbn [app read_bits take_bits bits_to_N]. rewrite (Hstep 0) by (intros [?|?]; contradiction). exact Hrest.
   Qed.
 End SeqRead.
+
+(* ------------------------------------------------------------------ the histogram of code length symbols *)
+Definition occ (l : list N) (s : N) : N := N.of_nat (count_occ N.eq_dec l s).
+
+Lemma occ_snoc l x s : occ (l ++ [x]) s = occ l s + (if N.eq_dec x s then 1 else 0).
+Proof.
+  unfold occ. rewrite count_occ_app. cbn [count_occ]. destruct (N.eq_dec x s); lia.
+Qed.
+
+Lemma occ_le l s : occ l s <= N.of_nat (length l).
+Proof. unfold occ. pose proof (count_occ_bound N.eq_dec s l). lia. Qed.
+
+Lemma occ_pos l s : occ l s <> 0 <-> In s l.
+Proof. unfold occ. rewrite (count_occ_In N.eq_dec). lia. Qed.
+
+Lemma firstn_snoc_pair (t : list (N * N)) i d : (i < length t)%nat -> firstn (S i) t = firstn i t ++ [nth i t d].
+Proof.
+  revert i. induction t as [|x t IH]; intros i H; [cbn in H; lia|].
+  destruct i as [|i]; [reflexivity|]. cbn [firstn nth app]. f_equal. apply IH. cbn in H. lia.
+Qed.
+
+Lemma hist_spec (t : list (N * N)) hist : N.of_nat (length t) < 2 ^ 32 ->
+  for_in 0 (N.of_nat (length t)) (fun i hist =>
+      '(s, _) <- getA t i ;; c <- getA hist s ;; setA hist s (wadd32 c 1)) (repeat 0 18) = Done hist ->
+  length hist = 18%nat /\ (forall s, nth (N.to_nat s) hist 0 = occ (map fst t) s) /\
+  (forall s, In s (map fst t) -> s < 18).
+Proof.
+  intros Hlen Hrun. unfold for_in in Hrun. rewrite N.sub_0_r, Nat2N.id in Hrun.
+  set (P := fun (i : N) (h : list N) => length h = 18%nat /\
+              (forall s, nth (N.to_nat s) h 0 = occ (map fst (firstn (N.to_nat i) t)) s) /\
+              (forall s, In s (map fst (firstn (N.to_nat i) t)) -> s < 18)).
+  assert (HP : P (0 + N.of_nat (length t)) hist).
+  { match type of Hrun with for_range _ _ ?b _ = _ =>
+      apply (for_range_inv_done P b (length t) 0 (repeat 0 18) hist); [| |exact Hrun] end.
+    - split; [reflexivity|]. split; [|intros s Hs; destruct Hs].
+      intros s. cbn [N.to_nat firstn map]. unfold occ. cbn [count_occ].
+      destruct (Nat.lt_ge_cases (N.to_nat s) 18) as [Hlt|Hge]; [|apply nth_overflow; cbn; lia].
+      apply nth_repeat.
+    - intros j h h1 Hj1 Hj2 HPj Hbody. destruct HPj as [P1 [P2 P3]].
+      inv_bind Hbody. destruct a as [s e]. apply (getA_done t j (s, e) (0, 0)) in E. destruct E as [Hjt Hse].
+      inv_bind Hbody. rename a into c. apply (getA_done h s c 0) in E. destruct E as [Hs Hc].
+      apply setA_done in Hbody. destruct Hbody as [_ ->]. unfold P.
+      replace (N.to_nat (j + 1)) with (S (N.to_nat j)) by lia.
+      rewrite (firstn_snoc_pair t _ (0, 0) Hjt), <- Hse, map_app. cbn [map fst].
+      split; [rewrite upd_length; exact P1|]. split.
+      + intros s'. rewrite occ_snoc. destruct (N.eq_dec s s') as [<-|Hne].
+        * rewrite upd_nth_same by exact Hs. rewrite Hc, P2. unfold wadd32, w32. apply N.mod_small.
+          pose proof (occ_le (map fst (firstn (N.to_nat j) t)) s) as Hle.
+          rewrite map_length, firstn_length in Hle. lia.
+        * rewrite upd_nth_other by lia. rewrite P2. lia.
+      + intros s' Hs'. apply in_app_or in Hs'. destruct Hs' as [Hs'|[<-|[]]]; [apply P3; exact Hs'|lia]. }
+  unfold P in HP. rewrite N.add_0_l, Nat2N.id, firstn_all in HP. exact HP.
+Qed.
+
+(* count_codes: 0, 1 or "at least 2" used code length symbols, and the first of them *)
+Lemma count_codes_spec : forall hist i nc code,
+  count_codes hist i 0 0 = (nc, code) ->
+  (nc = 0 /\ nonzero_count hist = 0%nat) \/
+  (nc = 1 /\ nonzero_count hist = 1%nat /\ i <= code /\ nth (N.to_nat (code - i)) hist 0 <> 0) \/
+  (nc = 2 /\ (2 <= nonzero_count hist)%nat).
+Proof.
+  assert (Aux : forall hist i code0 nc code, count_codes hist i 1 code0 = (nc, code) ->
+            (nc = 1 /\ code = code0 /\ nonzero_count hist = 0%nat) \/ (nc = 2 /\ (1 <= nonzero_count hist)%nat)).
+  { induction hist as [|h hist IH]; intros i code0 nc code H.
+    - cbn in H. inversion H. left. auto.
+    - cbn [count_codes] in H. unfold nonzero_count. cbn [filter]. destruct (N.eqb_spec h 0); cbn [negb] in *.
+      + apply IH in H. exact H.
+      + change (1 =? 0) with false in H. change (1 =? 1) with true in H. cbv iota in H. inversion H.
+        right. cbn [length]. split; [reflexivity|lia]. }
+  induction hist as [|h hist IH]; intros i nc code H.
+  - cbn in H. inversion H. left. auto.
+  - cbn [count_codes] in H. unfold nonzero_count. cbn [filter]. destruct (N.eqb_spec h 0) as [Eh|Eh]; cbn [negb] in *.
+    + apply IH in H. fold (nonzero_count hist). destruct H as [H|[[H1 [H2 [H3 H4]]]|H]]; [left; exact H| |right; right; exact H].
+      right. left. split; [exact H1|]. split; [exact H2|]. split; [lia|].
+      replace (N.to_nat (code - i)) with (S (N.to_nat (code - (i + 1)))) by lia. exact H4.
+    + change (0 =? 0) with true in H. cbv iota in H. apply Aux in H. unfold nonzero_count in H. cbn [length].
+      destruct H as [[H1 [H2 H3]]|[H1 H2]].
+      * right. left. subst. split; [reflexivity|]. split; [lia|]. split; [lia|].
+        rewrite N.sub_diag. exact Eh.
+      * right. right. split; [exact H1|lia].
+Qed.
+
+(* ------------------------------------------------------------------ the code length code itself *)
+Lemma clamped_bound counts cl M : (forall c, In c counts -> c <= M) ->
+  clamped_total counts cl <= N.of_nat (length counts) * N.max M cl.
+Proof.
+  induction counts as [|c counts IH]; intros H; [cbn; lia|].
+  cbn [clamped_total fold_right length]. fold (clamped_total counts cl).
+  specialize (IH (fun x Hx => H x (or_intror Hx))). pose proof (H c (or_introl eq_refl)).
+  rewrite Nat2N.inj_succ. destruct (c =? 0); lia.
+Qed.
+
+Lemma supp_single hist c : length hist = 18%nat -> nonzero_count hist = 1%nat -> (c < 18)%nat -> nth c hist 0 <> 0 ->
+  supp hist 18 = [c].
+Proof.
+  intros Hl Hn Hc Hz.
+  pose proof (supp_length hist 18 ltac:(lia)) as Hsl. rewrite firstn_all2, Hn in Hsl by lia.
+  assert (Hin : In c (supp hist 18)) by (apply supp_spec; auto).
+  destruct (supp hist 18) as [|x [|y l]]; cbn in Hsl; try lia. destruct Hin as [->|[]]. reflexivity.
+Qed.
+
+Lemma cl_tree_facts hist pool cl pool' rr nc code :
+  length hist = 18%nat -> (forall s, nth s hist 0 <= 704) ->
+  count_codes hist 0 0 0 = (nc, code) -> nc <> 0 ->
+  create_huffman_tree hist cl_alphabet_size (Z.of_N cl_tree_limit) pool (repeat 0 18) = Done (cl, pool', rr) ->
+  rr <= 27 ->
+  length cl = 18%nat /\ (forall i, nth i cl 0 <= 5) /\
+  (forall i, (i < 18)%nat -> (nth i cl 0 <> 0 <-> nth i hist 0 <> 0)) /\
+  ((nc = 2 /\ kraft cl = 32768) \/
+   (nc = 1 /\ code < 18 /\ cl = upd (repeat 0 18) (N.to_nat code) 1 /\ nth (N.to_nat code) hist 0 <> 0 /\
+    forall i, (i < 18)%nat -> i <> N.to_nat code -> nth i hist 0 = 0)).
+Proof.
+  intros Hl Hb Hcc Hnc Hrun Hrr.
+  change cl_alphabet_size with (N.of_nat 18) in Hrun. rewrite <- Hl in Hrun at 1.
+  change (Z.of_N cl_tree_limit) with 5%Z in Hrun.
+  destruct (count_codes_spec hist 0 nc code Hcc) as [[H0 _]|[[H1 [Hn1 [_ Hc1]]]|[H2 Hn2]]]; [contradiction| |].
+  - (* a single used code length symbol *)
+    rewrite N.sub_0_r in Hc1.
+    assert (Hclt : (N.to_nat code < 18)%nat).
+    { destruct (Nat.lt_ge_cases (N.to_nat code) 18) as [|Hge]; [assumption|]. rewrite nth_overflow in Hc1 by lia. contradiction. }
+    pose proof (supp_single hist (N.to_nat code) Hl Hn1 Hclt Hc1) as Hs. rewrite <- Hl in Hs at 1.
+    destruct (tree_one hist 5 pool (repeat 0 18) cl pool' rr (N.to_nat code) ltac:(rewrite Hl; cbn; lia) Hs Hrun) as [Ecl [_ _]].
+    assert (Hothers : forall i, (i < 18)%nat -> i <> N.to_nat code -> nth i hist 0 = 0).
+    { intros i Hi Hne. destruct (N.eq_dec (nth i hist 0) 0) as [|Hnz]; [assumption|]. exfalso.
+      assert (Hin : In i (supp hist (length hist))) by (apply supp_spec; rewrite Hl; auto).
+      rewrite Hs in Hin. destruct Hin as [<-|[]]. contradiction. }
+    subst cl. split; [rewrite upd_length; reflexivity|]. split; [|split].
+    + intros i. destruct (Nat.eq_dec i (N.to_nat code)) as [->|Hne].
+      * rewrite upd_nth_same by (cbn; lia). lia.
+      * rewrite upd_nth_other by lia.
+        destruct (Nat.lt_ge_cases i 18); [rewrite nth_repeat; lia|rewrite nth_overflow by (cbn; lia); lia].
+    + intros i Hi. destruct (Nat.eq_dec i (N.to_nat code)) as [->|Hne].
+      * rewrite upd_nth_same by (cbn; lia). split; [intros _; exact Hc1|intros _; discriminate].
+      * rewrite upd_nth_other by lia. rewrite nth_repeat, (Hothers i Hi Hne). tauto.
+    + right. repeat split; auto. lia.
+  - (* at least two *)
+    assert (Hg : clamped_total hist (2 ^ rr) < 2 ^ 32 - 1).
+    { eapply N.le_lt_trans; [apply (clamped_bound hist (2 ^ rr) 704)|].
+      - intros c Hc. apply (In_nth _ _ 0) in Hc. destruct Hc as [k [_ <-]]. apply Hb.
+      - rewrite Hl. assert (2 ^ rr <= 2 ^ 27) by (apply N.pow_le_mono_r; lia).
+        change (2 ^ 27) with 134217728 in *. change (2 ^ 32) with 4294967296. cbn [N.of_nat Pos.of_succ_nat Pos.succ]. lia. }
+    destruct (tree_partial hist 5 pool (repeat 0 18) cl pool' rr ltac:(rewrite Hl; cbn; lia) ltac:(lia) Hn2
+                ltac:(rewrite Hl; reflexivity) ltac:(intros i _; destruct (Nat.lt_ge_cases i 18); [apply nth_repeat|apply nth_overflow; cbn; lia])
+                Hrun ltac:(lia) Hg) as [T1 [T2 [T3 T4]]].
+    split; [lia|]. split; [exact T3|]. split; [intros i Hi; apply T2; lia|]. left. auto.
+Qed.
+
+(* ------------------------------------------------------------------ writing the code length code lengths *)
+Definition seg (a b : nat) : list N := firstn (b - a) (skipn a rfc_cl_order).
+Definition ord (k : nat) : N := nth k rfc_cl_order 0.
+
+Lemma nth_skipn_N (l : list N) a k : nth k (skipn a l) 0 = nth (a + k) l 0.
+Proof.
+  revert a. induction l as [|x l IH]; intros a; [destruct a, k; reflexivity|].
+  destruct a as [|a]; [reflexivity|]. cbn [skipn plus nth]. apply IH.
+Qed.
+
+Lemma seg_snoc a i : (a <= i)%nat -> (i < 18)%nat -> seg a (S i) = seg a i ++ [ord i].
+Proof.
+  intros H1 H2. unfold seg, ord. replace (S i - a)%nat with (S (i - a)) by lia.
+  rewrite (firstn_succ_snoc (skipn a rfc_cl_order) (i - a)) by (rewrite skipn_length; change (length rfc_cl_order) with 18%nat; lia).
+  f_equal. f_equal. rewrite nth_skipn_N. f_equal. lia.
+Qed.
+
+Lemma skipn_skipn_N (l : list N) m n : skipn n (skipn m l) = skipn (m + n) l.
+Proof.
+  revert l. induction m as [|m IH]; intros l; [reflexivity|]. destruct l as [|x l]; [destruct n; reflexivity|].
+  cbn [skipn plus]. apply IH.
+Qed.
+
+Lemma seg_split a b : (a <= b)%nat -> skipn a rfc_cl_order = seg a b ++ skipn b rfc_cl_order.
+Proof.
+  intros H. unfold seg. rewrite <- (firstn_skipn (b - a) (skipn a rfc_cl_order)) at 1. f_equal.
+  rewrite skipn_skipn_N. f_equal. lia.
+Qed.
+
+Lemma get_order k : (k < 18)%nat -> getA kStorageOrder (N.of_nat k) = Done (ord k).
+Proof.
+  intros H. destruct pinned_storage_tables as [-> _]. rewrite (getA_ok rfc_cl_order _ 0) by (rewrite Nat2N.id; cbn; lia).
+  rewrite Nat2N.id. reflexivity.
+Qed.
+
+Lemma ord_lt k : (k < 18)%nat -> ord k < 18.
+Proof.
+  intros H. assert (E : forallb (fun k => ord k <? 18) (seq 0 18) = true) by (vm_compute; reflexivity).
+  rewrite forallb_forall in E. apply N.ltb_lt. apply E. apply in_seq. lia.
+Qed.
+
+Lemma enc_order_app cl a b : enc_order cl (a ++ b) = enc_order cl a ++ enc_order cl b.
+Proof. unfold enc_order. apply flat_map_app. Qed.
+
+Lemma write_cl_len l out : l <= 5 ->
+  (nb <- getA kHuffmanBitLengthHuffmanCodeBitLengths l ;; v <- getA kHuffmanBitLengthHuffmanCodeSymbols l ;; write_bits nb v out)
+  = Done (out ++ cl_len_bits l).
+Proof.
+  intros H. assert (E : l = 0 \/ l = 1 \/ l = 2 \/ l = 3 \/ l = 4 \/ l = 5) by lia.
+  destruct E as [->|[->|[->|[->|[->| ->]]]]]; reflexivity.
+Qed.
+
+Lemma cts_loop_spec cl : forall fuel c cts, (N.to_nat c <= 18)%nat ->
+  codes_to_store_loop fuel cl c = Done cts ->
+  cts <= c /\ (forall k, (N.to_nat cts <= k)%nat -> (k < N.to_nat c)%nat -> nth (N.to_nat (ord k)) cl 0 = 0) /\
+  (cts = 0 \/ nth (N.to_nat (ord (N.to_nat cts - 1))) cl 0 <> 0).
+Proof.
+  induction fuel as [|f IH]; intros c cts Hc Hrun; [discriminate|].
+  cbn [codes_to_store_loop] in Hrun. destruct (N.ltb_spec 0 c) as [Hpos|Hz].
+  2:{ inversion Hrun. subst. split; [lia|]. split; [intros; lia|left; lia]. }
+  rewrite <- (N2Nat.id (c - 1)) in Hrun. rewrite get_order in Hrun by lia. cbn [bind] in Hrun.
+  inv_bind Hrun. rename a into d. apply (getA_done cl _ d 0) in E. destruct E as [_ ->].
+  destruct (N.eqb_spec (nth (N.to_nat (ord (N.to_nat (c - 1)))) cl 0) 0) as [Ez|Ez]; cbn [negb] in Hrun.
+  - rewrite N2Nat.id in Hrun. destruct (IH (c - 1) cts ltac:(lia) Hrun) as [H1 [H2 H3]].
+    split; [lia|]. split; [|exact H3]. intros k Hk1 Hk2.
+    destruct (Nat.eq_dec k (N.to_nat (c - 1))) as [->|Hne]; [exact Ez|apply H2; lia].
+  - inversion Hrun. subst cts. split; [lia|]. split; [intros; lia|]. right.
+    replace (N.to_nat c - 1)%nat with (N.to_nat (c - 1)) by lia. exact Ez.
+Qed.
+
+Lemma store_cl_lengths nc cl out out' : length cl = 18%nat -> (forall i, nth i cl 0 <= 5) ->
+  store_huffman_tree_of_huffman_tree_to_bit_mask nc cl out = Done out' ->
+  exists skip cts : nat, (skip = 0 \/ skip = 2 \/ skip = 3)%nat /\ (cts <= 18)%nat /\
+    out' = out ++ N_to_bits 2 (N.of_nat skip) ++ enc_order cl (seg skip cts) /\
+    (forall k, (k < skip)%nat -> nth (N.to_nat (ord k)) cl 0 = 0) /\
+    (skip = 0%nat -> nth (N.to_nat (ord 0)) cl 0 <> 0 \/ nth (N.to_nat (ord 1)) cl 0 <> 0) /\
+    (skip = 2%nat -> nth (N.to_nat (ord 2)) cl 0 <> 0) /\
+    ((1 <? nc) = true -> (forall k, (cts <= k < 18)%nat -> nth (N.to_nat (ord k)) cl 0 = 0) /\
+                         (cts = 0%nat \/ nth (N.to_nat (ord (cts - 1))) cl 0 <> 0)) /\
+    ((1 <? nc) = false -> cts = 18%nat).
+Proof.
+  intros Hl Hcl Hrun. unfold store_huffman_tree_of_huffman_tree_to_bit_mask in Hrun.
+  inv_bind Hrun. rename a into ctsN.
+  assert (Hcts : (N.to_nat ctsN <= 18)%nat /\
+     ((1 <? nc) = true -> (forall k, (N.to_nat ctsN <= k < 18)%nat -> nth (N.to_nat (ord k)) cl 0 = 0) /\
+                          (N.to_nat ctsN = 0%nat \/ nth (N.to_nat (ord (N.to_nat ctsN - 1))) cl 0 <> 0)) /\
+     ((1 <? nc) = false -> N.to_nat ctsN = 18%nat)).
+  { destruct (1 <? nc).
+    - destruct (cts_loop_spec cl 20 18 ctsN ltac:(cbn; lia) E) as [H1 [H2 H3]].
+      split; [change (N.to_nat 18) with 18%nat in *; lia|]. split; [|discriminate]. intros _. split.
+      + intros k Hk. apply H2; change (N.to_nat 18) with 18%nat; lia.
+      + destruct H3 as [->|H3]; [left; reflexivity|right; exact H3].
+    - inversion E. subst. split; [cbn; lia|]. split; [discriminate|reflexivity]. }
+  clear E. destruct Hcts as [Hc18 [HcA HcB]].
+  change 0 with (N.of_nat 0) in Hrun at 1. rewrite (get_order 0) in Hrun by lia. cbn [bind] in Hrun.
+  inv_bind Hrun. rename a into d0. apply (getA_done cl _ d0 0) in E. destruct E as [_ ->].
+  inv_bind Hrun. rename a into skipN.
+  assert (Hskip : exists skip : nat, skipN = N.of_nat skip /\ (skip = 0 \/ skip = 2 \/ skip = 3)%nat /\
+            (forall k, (k < skip)%nat -> nth (N.to_nat (ord k)) cl 0 = 0) /\
+            (skip = 0%nat -> nth (N.to_nat (ord 0)) cl 0 <> 0 \/ nth (N.to_nat (ord 1)) cl 0 <> 0) /\
+            (skip = 2%nat -> nth (N.to_nat (ord 2)) cl 0 <> 0)).
+  { destruct (N.eqb_spec (nth (N.to_nat (ord 0)) cl 0) 0) as [E0|E0].
+    - change 1 with (N.of_nat 1) in E at 1. rewrite (get_order 1) in E by lia. cbn [bind] in E.
+      inv_bind E. rename a into d1. apply (getA_done cl _ d1 0) in E1. destruct E1 as [_ ->].
+      destruct (N.eqb_spec (nth (N.to_nat (ord 1)) cl 0) 0) as [E1|E1].
+      + change 2 with (N.of_nat 2) in E at 1. rewrite (get_order 2) in E by lia. cbn [bind] in E.
+        inv_bind E. rename a into d2. apply (getA_done cl _ d2 0) in E2. destruct E2 as [_ ->].
+        assert (Es : (if nth (N.to_nat (ord 2)) cl 0 =? 0 then 3 else 2) = skipN) by congruence. clear E.
+        destruct (N.eqb_spec (nth (N.to_nat (ord 2)) cl 0) 0) as [E2|E2]; subst skipN.
+        * exists 3%nat. split; [reflexivity|]. split; [auto|]. split; [|split; intros; lia].
+          intros k Hk. destruct k as [|[|[|k]]]; try assumption; lia.
+        * exists 2%nat. split; [reflexivity|]. split; [auto|]. split; [|split; [intros; lia|intros _; exact E2]].
+          intros k Hk. destruct k as [|[|k]]; try assumption; lia.
+      + assert (Es : 0 = skipN) by congruence. subst skipN. exists 0%nat. split; [reflexivity|]. split; [auto|]. split; [intros; lia|].
+        split; [intros _; right; exact E1|intros; lia].
+    - assert (Es : 0 = skipN) by congruence. subst skipN. exists 0%nat. split; [reflexivity|]. split; [auto|]. split; [intros; lia|].
+      split; [intros _; left; exact E0|intros; lia]. }
+  try clear E. destruct Hskip as [skip [-> [Hs [Hsz [Hs0 Hs2]]]]].
+  inv_bind Hrun. rename a into out1.
+  assert (E1 : out1 = out ++ N_to_bits 2 (N.of_nat skip)).
+  { rewrite write_bits_ok in E by (try lia; destruct Hs as [->|[->| ->]]; cbn; lia). inversion E. reflexivity. }
+  subst out1. clear E.
+  exists skip, (N.to_nat ctsN). split; [exact Hs|]. split; [exact Hc18|]. split; [|auto].
+  unfold for_in in Hrun.
+  set (P := fun (i : N) (o : bitlist) => o = (out ++ N_to_bits 2 (N.of_nat skip)) ++ enc_order cl (seg skip (N.to_nat i))).
+  assert (HP : P (N.of_nat skip + N.of_nat (N.to_nat (ctsN - N.of_nat skip))) out').
+  { match type of Hrun with for_range _ _ ?b _ = _ =>
+      apply (for_range_inv_done P b (N.to_nat (ctsN - N.of_nat skip)) (N.of_nat skip) _ out'); [| |exact Hrun] end.
+    - unfold P, seg. rewrite Nat2N.id, Nat.sub_diag. cbn [firstn enc_order flat_map]. rewrite app_nil_r. reflexivity.
+    - intros j o o1 Hj1 Hj2 HPj Hbody. unfold P in *.
+      rewrite <- (N2Nat.id j) in Hbody. rewrite get_order in Hbody by lia. cbn [bind] in Hbody.
+      inv_bind Hbody. rename a into l. apply (getA_done cl _ l 0) in E. destruct E as [_ ->].
+      rewrite write_cl_len in Hbody by apply Hcl. inversion Hbody. subst o o1.
+      replace (N.to_nat (j + 1)) with (S (N.to_nat j)) by lia.
+      rewrite seg_snoc by lia. rewrite enc_order_app, <- !app_assoc. cbn [enc_order flat_map]. rewrite app_nil_r. reflexivity. }
+  unfold P in HP. rewrite HP, <- app_assoc. f_equal. f_equal. f_equal.
+  destruct (Nat.le_gt_cases skip (N.to_nat ctsN)) as [Hle|Hgt].
+  - f_equal. lia.
+  - replace (N.to_nat (N.of_nat skip + N.of_nat (N.to_nat (ctsN - N.of_nat skip)))) with skip by lia.
+    unfold seg. replace (skip - skip)%nat with 0%nat by lia. replace (N.to_nat ctsN - skip)%nat with 0%nat by lia. reflexivity.
+Qed.
